@@ -1,5 +1,6 @@
 import TaskModel.Load.MergeInvariant
 import TaskModel.Load.RootRef
+import TaskModel.Load.VarsLemmas
 import TaskModel.Gen.Fields
 import TaskModel.Gen.Load
 /-!
@@ -264,6 +265,19 @@ theorem C08_attrs_merged (t1 t2 r : Table) (inc : Include) (itv : Vars) (h : mer
   obtain ⟨e1, _, _, e4, e5, e6, e7, e8⟩ := core_fields h2
   exact ⟨t', h1, e1.trans (mergeOne_name _ _ _), e4.trans (mergeOne_attrs _ _ _), e8.trans (mergeOne_vars _ _ _),
     e7.trans (mergeOne_loc _ _ _), e5.trans (mergeOne_internal _ _ _), e6.trans (mergeOne_dir _ _ _)⟩
+
+/-- **sees the include's vars, runs in the include's directory**: for an advanced import the
+copy's `IncludeVars` answer every name of the include statement's `vars:` with that value
+(later levels override earlier ones), and its directory is the include's `dir` joined
+with the task's own. -/
+theorem C08_include_vars (inc : Include) (itv : Vars) (t : Task) (ha : inc.advanced = true) (k : Nat)
+    (hk : k ∈ inc.vars.keys) :
+    Vars.get k (mergeOne inc itv t).incVars = Vars.get k (Vars.merge [] none inc.vars)
+    ∧ (mergeOne inc itv t).dir = smartJoin inc.dir t.dir := by
+  have h1 : (mergeOne inc itv t).incVars = Vars.merge t.incVars none inc.vars := by
+    simp only [mergeOne]; split <;> split <;> simp_all
+  refine ⟨?_, by rw [mergeOne_dir]; simp [ha]⟩
+  rw [h1, get_merge]; simp [hk]
 
 /-! ## C08_errors — clashes, cycles, missing files, version mismatches are errors -/
 
